@@ -29,6 +29,12 @@ def spec(tier):
                     sym = dict(cpus=I(1, 12), ma=I(1, 8), da=I(1, 2), db=I(1, 2))
                     obs.append(CH(name=f"recount_{algo}_{'multi' if multi else 'single'}_{pname}_d{dur}", harness="rsim.stats_recount",
                                   sym=sym, fixed=dict(cfg=cfg, ram=30), timeout=1200))
+    # runs that end while a suspension is still writing out (large pool => multi-tick write-outs)
+    pend = [pipe("chain2", prio=3, at=0, durs=[1, 4]), pipe("single", prio=1, at="ta", durs=[2]), pipe("chain2", prio=2, at=0, durs=["da", 3])]
+    for dur in (2, 3, 4, 6):
+        cfg = dict(algo="priority", pools=1, multi=True, duration=dur, pipes=pend)
+        obs.append(CH(name=f"recount_suspension_at_end_d{dur}", harness="rsim.stats_recount", sym=dict(cpus=I(1, 4), ta=I(0, 3), da=I(1, 2)),
+                      fixed=dict(cfg=cfg, ram=600, ma=1, db=1), timeout=600, group="sus_end"))
     # very short runs: fewer ticks than anything needs (0 and 1 ticks)
     for dur in (0.5, 1, 2):
         cfg = dict(algo="priority", pools=1, multi=True, duration=dur, pipes=patterns["mixed"])
